@@ -490,14 +490,14 @@ func init() {
 				c.Count("repository_samples", 1)
 			}
 		}})
-		for shape := 0; shape < 5; shape++ {
+		for shape := 0; shape < 7; shape++ {
 			shape := shape
 			us = append(us, core.Unit{Name: fmt.Sprintf("long-%d", shape), Weight: 60, Run: func(c *core.Ctx) {
 				for i, def := range msgs {
-					if !thorough && i%4 != shape%4 {
+					if !thorough && i%4 != shape%4 && shape < 5 {
 						continue
 					}
-					for _, n := range []int{1000, 16000, 70000} {
+					for _, n := range []int{1000, 1713, 16000, 65530, 70000} {
 						b := longInput(c.R, def, shape, n)
 						if len(b) >= 65536 {
 							c.Count("inputs_ge_65536", 1)
@@ -514,6 +514,25 @@ func init() {
 		us = append(us, core.Unit{Name: "meter", Weight: 1, Solo: true, Run: func(c *core.Ctx) {
 			n := c.Pick(30000, 200000)
 			per := n / len(msgs)
+			// resource-hostile shapes, every one of them: each legal element header repeated
+			// without contents, and every message nested in its own container to the bottom
+			for i, def := range msgs {
+				ep := entryFor(def, i)
+				for _, h := range truncHeaders(def) {
+					for _, sz := range []int{1713, 6000} {
+						c.Do(&core.Case{Oracle: "meter", Target: "nas.Message." + epNames[ep], B: [][]byte{truncHeaderInput(def, c.R, h, sz)}, I: []int64{ep}})
+						c.Count("meter_truncated_header_inputs", 1)
+					}
+				}
+				for _, csi := range containerSlots(def) {
+					for _, sz := range []int{4000, 16000, 65530} {
+						if b := nestedDeep(def, c.R, sz, csi); b != nil {
+							c.Do(&core.Case{Oracle: "meter", Target: "nas.Message." + epNames[ep], B: [][]byte{b}, I: []int64{ep}})
+							c.Count("meter_nested_inputs", 1)
+						}
+					}
+				}
+			}
 			for mi, def := range msgs {
 				other := refcodec.RandomPlan(msgs[(mi+1)%len(msgs)], c.R, 1, 3).Bytes()
 				for i := 0; i < per; i++ {
@@ -542,7 +561,7 @@ func init() {
 						b = pl.Bytes()
 					case 5:
 						if i%60 == 5 {
-							b = longInput(c.R, def, i/60, []int{5000, 16000, 70000}[(i/60)%3])
+							b = longInput(c.R, def, i/60, []int{5000, 16000, 70000, 1713, 65530}[(i/60)%5])
 						} else {
 							b = append(refcodec.MinimalBody(def, c.R)[:def.HeaderLen()], c.R.Bytes(c.R.Intn(65))...)
 						}
